@@ -105,7 +105,7 @@ def build(forest: list[dict[str, Any]], rng: random.Random) -> list[dict[str, An
             body.extend(logs(1))
             b: dict[str, Any] = {"op": "block", "kind": tree["kinds"][i], "name": name, "scope_name": NAME_CLASSES[tree["names"][i]], "supply": [], "body": body, "completion": "sync", "catch": True}
             if tree["loggers"][i]:
-                b["logger"] = f"lg.{ti}.{i}" + (".mem" if (ti + i + len(tree["parents"])) % 3 == 0 else (".late" if (ti + i + len(tree["parents"])) % 3 == 1 else ""))
+                b["logger"] = f"lg.{ti}.{i}" + (".mem" if (ti + i + len(tree["parents"])) % 3 == 0 else (".late" if (ti + i + len(tree["parents"])) % 3 == 1 else (".off" if (ti + i) % 2 == 0 else "")))
             if tree["traces"][i]:
                 b["trace_id"] = f"trace-{ti}-{i}" if (ti + i) % 3 else f"tr%s-{ti}-{i}"
             elif (ti + 2 * i + len(tree["parents"])) % 4 == 0:
